@@ -598,9 +598,13 @@ func (p *G1Affine) setBytes(buf []byte, subGroupCheck bool) (int, error) {
 			return 0, err
 		}
 
-		// subgroup check
-		if subGroupCheck && !p.IsInSubGroup() {
-			return 0, errors.New("invalid point: subgroup check failed")
+		// subgroup check (it includes the curve equation); without it the point must still be on the curve
+		if subGroupCheck {
+			if !p.IsInSubGroup() {
+				return 0, errors.New("invalid point: subgroup check failed")
+			}
+		} else if !p.IsOnCurve() {
+			return 0, errors.New("invalid point: not on curve")
 		}
 
 		return SizeOfG1AffineUncompressed, nil
